@@ -227,7 +227,7 @@ func parseRawSuite(raw string) (SuiteConfig, error) {
 
 // parseCryptoFunction handles the "HOTP-SHA1-6" or "HOTP-SHA256-8" part.
 func parseCryptoFunction(raw, crypto string) (SuiteConfig, error) {
-	if !strings.HasPrefix(strings.ToUpper(crypto), "HOTP-SHA") {
+	if !strings.HasPrefix(upperASCII(crypto), "HOTP-SHA") {
 		return SuiteConfig{}, fmt.Errorf("unknown or unsupported crypto in %q", raw)
 	}
 	rest := crypto[5:]
@@ -239,7 +239,7 @@ func parseCryptoFunction(raw, crypto string) (SuiteConfig, error) {
 	digPart := parts[1]  // "8" or "6", etc.
 
 	var cfg SuiteConfig
-	switch strings.ToUpper(hashPart) {
+	switch upperASCII(hashPart) {
 	case "SHA1":
 		cfg.Hash = SHA1
 	case "SHA256":
@@ -263,7 +263,7 @@ func parseCryptoFunction(raw, crypto string) (SuiteConfig, error) {
 func parseDataInputTokens(cfg *SuiteConfig, input string) error {
 	toks := strings.Split(input, "-")
 	for _, tok := range toks {
-		tokU := strings.ToUpper(tok)
+		tokU := upperASCII(tok)
 		switch {
 		case tokU == "C":
 			cfg.IncludeCounter = true
